@@ -8,7 +8,7 @@
   witness-item lengths ≤ MAX_SIZE, counts < 2^64).  All theorems are for every such value, of any size.
   Helper lemmas: Proofs/Codec.lean (codec library), Proofs/Wire.lean.
 -/
-import BtcVerif.Proofs.Wire
+import BtcVerif.Proofs.Ident
 
 namespace BtcVerif.C01
 open BtcVerif BtcVerif.Model.Wire BtcVerif.Spec.Wire BtcVerif.Codec
@@ -36,7 +36,21 @@ theorem header_length (h : Header) (wf : WFHeader h) : (header h).length = 80 :=
 /-- bytes 4 and 5 of an encoding are the BIP144 marker and flag -/
 def usesExtendedForm (bs : Bytes) : Bool := (bs.drop 4).take 2 == [0x00, 0x01]
 
-/-- the marker/flag form is produced if and only if some witness stack is non-empty -/
+/-- the Spec's condition ("some witness stack is non-empty", `Basic/Tx.lean`) is an existential over
+    the stacks; it is defined independently of the model's `is_null` loop -/
+theorem hasWitness_iff (t : Tx) : t.hasWitness = true ↔ ∃ s ∈ t.wit, s ≠ [] := Tx.hasWitness_iff t
+
+/-- the model's mirror of `CTxWitness.is_null` (the test `stream_serialize` branches on) answers
+    `True` exactly when no stack is non-empty — a theorem, not a shared definition -/
+theorem isNull_mirror_iff (w : List WitStack) : witIsNull w = true ↔ ¬ ∃ s ∈ w, s ≠ [] := by
+  have := Tx.hasWitness_eq_not_witIsNull { nVersion := 0, vin := [], vout := [], wit := w, nLockTime := 0 }
+  have h2 := Tx.hasWitness_iff { nVersion := 0, vin := [], vout := [], wit := w, nLockTime := 0 }
+  simp only at this h2
+  rw [← h2, this]
+  cases witIsNull w <;> simp
+
+/-- the marker/flag form is produced (by the model, which branches on the `is_null` mirror) if and
+    only if some witness stack is non-empty (the Spec's independent condition) -/
 theorem marker_iff (t : Tx) (wf : WFTx t) (bs : Bytes) (h : serTx t = .ok bs) :
     usesExtendedForm bs = true ↔ t.hasWitness = true := by
   rw [ser_eq_spec t wf] at h
@@ -76,7 +90,8 @@ theorem normTx_fields (t : Tx) :
   · simp
   · rename_i h
     refine ⟨rfl, rfl, rfl, rfl, ?_⟩
-    have h' : witIsNull t.wit = true := by simpa [Tx.hasWitness] using h
+    have h' : witIsNull t.wit = true := by
+      rw [Tx.hasWitness_eq_not_witIsNull] at h; simpa using h
     simp only [witIsNull, List.all_eq_true, List.isEmpty_iff] at h'
     simp only [List.flatten_nil]
     symm
@@ -164,6 +179,83 @@ theorem block_padding_allowed (b : Block) (wf : WFBlock b) (bs : Bytes) (hs : se
     (e : Bytes) : deserialize deBlock (bs ++ e) true = .ok (normBlock b) := by
   rw [serBlock_eq_spec b wf] at hs; injection hs with hs; subst hs
   exact (dec_deBlock b wf).deserialize_padding
+
+/-! ### the mutable class: `CMutableTransaction.deserialize` -/
+
+open BtcVerif.Model.Ident in
+/-- `CMutableTransaction.stream_deserialize` returns the same field values; on the legacy path the
+    constructor default gives one empty stack per input (`mutableDefaultWit`), which serialises to
+    the same bytes -/
+theorem de_ser_mutable (t : Tx) (wf : WFTx t) (bs : Bytes) (h : serTx t = .ok bs) (rest : Bytes) :
+    deTxMutable (bs ++ rest) = .ok (mutableDefaultWit (normTx t), rest) ∧
+    serTx (mutableDefaultWit (normTx t)) = .ok bs := by
+  rw [ser_eq_spec t wf] at h; injection h with h; subst h
+  refine ⟨(dec_deTxMutable t wf).1 rest, ?_⟩
+  rw [ser_eq_spec _ (wf_mutableDefaultWit (wf_normTx wf)), txBytes_mutableDefaultWit, txBytes_normTx]
+
+open BtcVerif.Model.Ident in
+/-- the default witness only adds empty stacks: every other field, and every witness item, is as in
+    the immutable result -/
+theorem mutableDefaultWit_fields (t : Tx) :
+    (mutableDefaultWit t).nVersion = t.nVersion ∧ (mutableDefaultWit t).vin = t.vin ∧
+    (mutableDefaultWit t).vout = t.vout ∧ (mutableDefaultWit t).nLockTime = t.nLockTime ∧
+    (mutableDefaultWit t).wit.flatten = t.wit.flatten := by
+  unfold mutableDefaultWit
+  split
+  · rename_i h
+    refine ⟨rfl, rfl, rfl, rfl, ?_⟩
+    rw [List.isEmpty_iff.1 h]
+    simp
+  · simp
+
+open BtcVerif.Model.Ident in
+theorem mutable_prefix_trunc (t : Tx) (wf : WFTx t) (bs : Bytes) (h : serTx t = .ok bs) (p : Bytes)
+    (hp : p <+: bs) (hne : p ≠ bs) (pad : Bool) : deserialize deTxMutable p pad = .err .trunc := by
+  rw [ser_eq_spec t wf] at h; injection h with h; subst h
+  exact (dec_deTxMutable t wf).deserialize_prefix hp hne pad
+
+open BtcVerif.Model.Ident in
+theorem mutable_extra_data (t : Tx) (wf : WFTx t) (bs : Bytes) (h : serTx t = .ok bs) (e : Bytes) (he : e ≠ []) :
+    deserialize deTxMutable (bs ++ e) false = .extra (mutableDefaultWit (normTx t)) e ∧
+    deserialize deTxMutable (bs ++ e) true = .ok (mutableDefaultWit (normTx t)) ∧
+    deserialize deTxMutable bs false = .ok (mutableDefaultWit (normTx t)) := by
+  rw [ser_eq_spec t wf] at h; injection h with h; subst h
+  exact ⟨(dec_deTxMutable t wf).deserialize_extra he, (dec_deTxMutable t wf).deserialize_padding,
+    (dec_deTxMutable t wf).deserialize_exact false⟩
+
+/-! ### arbitrary byte strings: no other exception type, ever
+
+    Beyond prefixes and extensions of valid encodings: for ANY input the parsers end in an object,
+    `SerializationTruncationError` or `SerializationError` (MAX_SIZE) — the model's `py …` outcomes
+    (struct.error, AssertionError, IndexError …) are unreachable from `deserialize`. -/
+
+theorem deTx_total (bs : Bytes) :
+    (∃ r, deTx bs = .ok r) ∨ deTx bs = .error .trunc ∨ deTx bs = .error .sererr :=
+  (clean_deTx bs).cases
+
+open BtcVerif.Model.Ident in
+theorem deTxMutable_total (bs : Bytes) :
+    (∃ r, deTxMutable bs = .ok r) ∨ deTxMutable bs = .error .trunc ∨ deTxMutable bs = .error .sererr :=
+  (clean_deTxMutable bs).cases
+
+theorem deHeader_total (bs : Bytes) :
+    (∃ r, deHeader bs = .ok r) ∨ deHeader bs = .error .trunc ∨ deHeader bs = .error .sererr :=
+  (clean_deHeader bs).cases
+
+theorem deBlock_total (bs : Bytes) :
+    (∃ r, deBlock bs = .ok r) ∨ deBlock bs = .error .trunc ∨ deBlock bs = .error .sererr :=
+  (clean_deBlock bs).cases
+
+/-- `deserialize(buf, allow_padding)` on any buffer: an object, the extra-data error (non-empty
+    surplus), truncation or the size guard — for all four classes -/
+theorem deserialize_total (buf : Bytes) (pad : Bool) :
+    ((∃ a, deserialize deTx buf pad = .ok a) ∨ (∃ a x, x ≠ [] ∧ deserialize deTx buf pad = .extra a x) ∨
+      deserialize deTx buf pad = .err .trunc ∨ deserialize deTx buf pad = .err .sererr) ∧
+    ((∃ a, deserialize deHeader buf pad = .ok a) ∨ (∃ a x, x ≠ [] ∧ deserialize deHeader buf pad = .extra a x) ∨
+      deserialize deHeader buf pad = .err .trunc ∨ deserialize deHeader buf pad = .err .sererr) ∧
+    ((∃ a, deserialize deBlock buf pad = .ok a) ∨ (∃ a x, x ≠ [] ∧ deserialize deBlock buf pad = .extra a x) ∨
+      deserialize deBlock buf pad = .err .trunc ∨ deserialize deBlock buf pad = .err .sererr) :=
+  ⟨clean_deTx.deserialize buf pad, clean_deHeader.deserialize buf pad, clean_deBlock.deserialize buf pad⟩
 
 /-- the three codecs are sound in the sense of the codec library (DESIGN §5); for transactions the
     decoder returns the normal form, so the statement is for values in normal form -/
